@@ -29,3 +29,9 @@ Proof.
   rewrite assess_is_ref_sum, Hr. simpl. rewrite Hs. reflexivity.
 Qed.
 Print Assumptions C01_wellformed_trace_agrees.
+
+(* ---- non-vacuity: concrete non-trivial programs and traces meeting the hypotheses above (proofs/GFIWitness.v) ---- *)
+From Proofs Require Import GFIWitness.
+Example C01_hypotheses_met : wfg ex_g /\ simulate ex_g ex_k ex_a = Ok ex_t /\ wft ex_g ex_t /\ sites_live ex_t /\ length (t_choices ex_t) = 7%nat.
+Proof. exact (conj ex_wfg (conj ex_simulate (conj ex_wft (conj ex_sites_live ex_nontrivial)))). Qed.
+Print Assumptions C01_hypotheses_met.
